@@ -1044,3 +1044,75 @@ def _structtag_rule(ctx):
 rule("C06", "D6.10", "T-WITNESS", floor=3)(_structtag_rule)
 rule("C07", "D7.8", "T-WITNESS", floor=3)(_structtag_rule)
 rule("C01", "D1.18", "T-WITNESS", floor=3)(_structtag_rule)
+
+
+# ---------------------------------------------------------------------------------------------------------------- codec purity
+MUTATORS = {"append", "extend", "insert", "pop", "clear", "update", "remove", "sort", "reverse", "setdefault", "add", "discard", "popitem", "__setitem__"}
+
+
+def shared_state_mutations(fn):
+    """[(node, what)] - statements of a method that mutate an object reached through its first parameter (`cls` / `self`):
+    a subscript / slice store or delete, an augmented store, a mutating method call, directly or through a local that was bound
+    to `cls.<attr>`, and (classmethods) rebinding of `cls.<attr>`."""
+    if not fn.args.args:
+        return []
+    first = fn.args.args[0].arg
+    if first not in ("cls", "self"):
+        return []
+    alias = {}
+    for n in ast.walk(fn):
+        if isinstance(n, ast.Assign) and len(n.targets) == 1 and isinstance(n.targets[0], ast.Name) and isinstance(n.value, ast.Attribute) and isinstance(n.value.value, ast.Name) and n.value.value.id == first:
+            alias[n.targets[0].id] = n.value.attr
+
+    def base(e):
+        if isinstance(e, ast.Attribute) and isinstance(e.value, ast.Name) and e.value.id == first:
+            return f"{first}.{e.attr}"
+        if isinstance(e, ast.Name) and e.id in alias:
+            return f"{first}.{alias[e.id]} (through the local `{e.id}`)"
+        return None
+
+    out = []
+    for n in ast.walk(fn):
+        t = None
+        if isinstance(n, ast.Subscript) and isinstance(n.ctx, (ast.Store, ast.Del)):
+            t = base(n.value)
+        elif isinstance(n, ast.Call) and isinstance(n.func, ast.Attribute) and n.func.attr in MUTATORS:
+            t = base(n.func.value)
+        elif isinstance(n, ast.Attribute) and isinstance(n.ctx, (ast.Store, ast.Del)) and isinstance(n.value, ast.Name) and n.value.id == first == "cls":
+            t = f"cls.{n.attr} (rebound)"
+        if t:
+            out.append((n, t))
+    return out
+
+
+def _codec_purity(ctx):
+    """Codec classes keep no per-call state: no method of a data-type class mutates an object reached through `cls` / `self`
+    (a class-level buffer, table or list is shared by every call and every tag of that type), so what `encode` returns is a
+    fresh value and two encodes never write into one another's result.  Expected count zero; a synthetic class with a shared
+    buffer is the positive control on every run."""
+    control = ast.parse("class K:\n    _image = bytearray(4)\n    @classmethod\n    def _encode(cls, v):\n        value = cls._image\n        value[0:1] = v\n        cls._seen.append(v)\n        return value\n").body[0].body[1]
+    hits = shared_state_mutations(control)
+    if len(hits) != 2:
+        ctx.undecided("codec-purity#positive-control", None, f"the positive control matched {len(hits)} of 2 mutations")
+        return
+    ctx.ok("codec-purity#positive-control", None, "the positive control (a class-level buffer written through a local, a class-level list appended to) is detected")
+    n = 0
+    for key, fi in sorted(ctx.model.functions.items()):
+        rel = fi.module.relpath.replace("\\", "/")
+        if fi.cls is None or not rel.endswith(("cip/data_types.py", "custom_types.py", "cip/pccc.py")):
+            continue
+        if not any(k.name == "DataType" for k in fi.cls.mro()) and "DataType" not in {getattr(b, "id", None) for k in fi.cls.mro() for b in k.node.bases} and fi.cls.enclosing is None:
+            continue
+        n += 1
+        probs = shared_state_mutations(fi.node)
+        if probs:
+            node, what = probs[0]
+            ctx.violation(ckey(fi, "shared-state"), node, f"{fi.qualname} mutates {what}: the object is shared by every call on this type (and by every tag of the type), so a second encode / decode overwrites what the first one returned")
+    ctx.ok("codec-purity#census", None, f"{n} codec methods, none mutates state reached through cls / self", methods=n)
+
+
+rule("C02", "D2.14", "T-WHO", floor=2)(_codec_purity)
+rule("C06", "D6.11", "T-WHO", floor=2)(_codec_purity)
+rule("C07", "D7.9", "T-WHO", floor=2)(_codec_purity)
+rule("C17", "D17.6", "T-WITNESS", floor=8)(d2_12)
+rule("C17", "D17.7", "T-WITNESS", floor=6)(d1_15)
